@@ -1,6 +1,6 @@
 import FlytModel.Generated.IR
 import FlytModel.Expected.IR
-/-! The translation of `runBatchSequential` from the CURRENT source is, term for term, the IR the refinement theorems are about. -/
+/-! The translation of `runBatchSequential` from the CURRENT source is, term for term, the expected IR. -/
 namespace Flyt.Tie
 theorem runBatchSequential : Flyt.Generated.IR.runBatchSequential = Flyt.Expected.IR.runBatchSequential := rfl
 end Flyt.Tie
